@@ -281,6 +281,9 @@ def cross_cases(draw, tier):
     return {"spec": spec, "seed": draw(st.sampled_from([1, 5, 77, 1234]))}
 
 
+RULE_ROUND9 = " Profile typed_obj_pop (a load mapper that consumes its entry, kind included). Part cross-process: a tree of value objects (frozen dataclass, default data_id) is written by a child interpreter with another PYTHONHASHSEED and loaded here: every node's data_id is this process' hash of its data, lookups by data find all occurrences."
+RULE = RULE + RULE_ROUND9
+
 PARTS = [
     Part("roundtrip", run, strategy=lambda tier: hyp_cases(tier), n={"quick": 1000, "thorough": 100000}),
     nested_part("C05", ["roundtrip"], {"LC_ALL": "C", "LANG": "C", "PYTHONUTF8": "0", "PYTHONCOERCECLOCALE": "0", "PYTHONIOENCODING": "utf8"}, "c-locale", "text files opened without an explicit encoding are read and written as ASCII"),
